@@ -662,7 +662,8 @@ def run_check(ctx, prop, gen_mode, oracles, branchers, quick_n, thorough_n, corp
     impl = go_run_parallel(ctx, binary, test, scenarios)
     ctx.log("implementation done")
     flat = [l for sc in scenarios for l in sc]
-    model_flat = ctx.lean_run(flat)
+    drv = ctx.lean_driver_build()      # once: every lake call waits for the shared build lock
+    model_flat = ctx.run_lines([drv], flat) if drv else None
     if model_flat is None:
         proofs_ok = False
         model_flat = []
@@ -681,7 +682,7 @@ def run_check(ctx, prop, gen_mode, oracles, branchers, quick_n, thorough_n, corp
 
     def differs(cand):
         outs = _go_run_named(ctx, binary, test, cand)
-        mo = ctx.run_lines([ctx.lean_driver_build()], cand)
+        mo = ctx.run_lines([drv], cand)
         return outs != mo and len(outs) == len(cand)
 
     nprop, ncorr, nsub, nharness = 0, 0, 0, 0
@@ -735,7 +736,7 @@ def run_check(ctx, prop, gen_mode, oracles, branchers, quick_n, thorough_n, corp
                 if len(outs) == len(sc):
                     small = shrink_scenario(ctx, binary, test, small, differs)
                 souts = _go_run_named(ctx, binary, test, small)
-                smo = ctx.run_lines([ctx.lean_driver_build()], small)
+                smo = ctx.run_lines([drv], small)
                 a = outs[j] if j < len(outs) else "<missing>"
                 b = mo[j] if j < len(mo) else "<missing>"
                 ctx.violation("correspondence", f"model and implementation differ at `{sc[j]}`: impl `{a}` model `{b}`",
